@@ -39,7 +39,7 @@ if not (rc0 == 0 and rca == 0 and rc1 != 0 and rcb == 0):
 rc, out = sh(f'git apply {patch}', wt)
 assert rc == 0, out
 vc = f'/tmp/sv/{prop}-{var}'
-sh(f'rm -rf {vc}; mkdir -p /tmp/sv; rsync -a --exclude bin --exclude .work --exclude replays --exclude .git /verif/ {vc}/')
+sh(f'rm -rf {vc}; mkdir -p /tmp/sv; rsync -a --exclude bin --exclude .work --exclude replays --exclude .git {os.environ.get('VERIF_SRC', '/verif')}/ {vc}/')
 try:
     if checks is None:
         m = json.load(open('/verif/MANIFEST.json'))
